@@ -103,7 +103,7 @@ func (s *gkvp) SerializeValueTo(pc *PrintCtx) {
 		pc.pcAppendByte('}')
 		return
 	}
-	_ = serializeAttrs(pc, s.items)
+	_ = serializeAttrs(pc, slices.Clone(s.items))
 }
 
 func (s Attrs) SerializeValueTo(pc *PrintCtx) {
@@ -112,7 +112,9 @@ func (s Attrs) SerializeValueTo(pc *PrintCtx) {
 		pc.pcAppendByte('{')
 		pc.firstMember = true
 	}
-	_ = serializeAttrs(pc, s)
+	// serializeAttrs sorts and dedupes in place: work on a copy, the items of a
+	// group may be shared by records being formatted concurrently.
+	_ = serializeAttrs(pc, slices.Clone(s))
 	if pc.jsonMode {
 		pc.firstMember = false
 		pc.pcAppendByte('}')
